@@ -11,6 +11,9 @@ ops:
   new <obj> <srcs> <tgts>                `BFS::new(srcs, tgts, n)`            lists: a,b,c or `-` (empty)
   run <obj> <filter>                     `run_with_filter` skipping the listed edge ids; `-` = `run()`
   q <srcs> <tgts> <filter>               fresh object + one run
+  rep <obj> <N> <filter>                 the same run N times on <obj>; only the last min(N,3) of them are observed
+                                         like `run` ops (they take the next run numbers k..), followed by
+                                           D r<k> n=<N> true=<how many of the N calls returned true>
 
 obs for the k-th run (k counts `run` and `q` ops):
   D k found=<0|1>
@@ -29,7 +32,11 @@ inductive Op where
   | new (id : String) (srcs tgts : List Nat)
   | run (id : String) (filt : Option (List Nat))
   | q (srcs tgts : List Nat) (filt : Option (List Nat))
+  | rep (id : String) (n : Nat) (filt : Option (List Nat))
 deriving Inhabited
+
+/-- how many of the runs of a `rep` op are observed individually -/
+def repObserved (n : Nat) : Nat := Nat.min n 3
 
 def parseList (s : String) : Option (List Nat) :=
   if s == "-" then some [] else (s.splitOn ",").mapM (·.toNat?)
@@ -42,6 +49,7 @@ def parseOp (l : String) : Option Op :=
   | ["new", id, a, b] => do some (.new id (← parseList a) (← parseList b))
   | ["run", id, f] => do some (.run id (← parseFilt f))
   | ["q", a, b, f] => do some (.q (← parseList a) (← parseList b) (← parseFilt f))
+  | ["rep", id, n, f] => do some (.rep id (← n.toNat?) (← parseFilt f))
   | _ => none
 
 def bit (b : Bool) : String := if b then "1" else "0"
@@ -100,6 +108,8 @@ structure Stats where
   hops : Nat := 0
   epfilt : Nat := 0      -- edge paths containing a FILTERED (parallel) edge: allowed by the property, counted
   explored : Nat := 0
+  silent : Nat := 0      -- runs of `rep` ops that were only counted
+  maxhist : Nat := 0     -- longest history of runs on one object
 
 structure GState where
   isBfs : Bool := true
@@ -110,6 +120,81 @@ structure GState where
 
 def GState.g (gs : GState) : Search.Graph := fun u => gs.adj.getD u []
 def GState.pop (gs : GState) : List Nat → Option (Nat × List Nat) := if gs.isBfs then Search.popFront else Search.popBack
+
+/-- the Spec judge for ONE observed run (number `j`) of the implementation; returns the reason of a failure -/
+def judgeRun (impl : List String) (gs : GState) (j : Nat) (srcs tgts : List Nat) (f : Option (List Nat))
+    (reused : Bool) (stt0 : Stats) : Option String × Stats := Id.run do
+  let mut stt := stt0
+  let mut bad : Option String := none
+  let g := gs.g
+  let n := gs.n
+  let isBfs := gs.isBfs
+  let alg := gs.alg
+  let linesOf (pfx : String) : List String := impl.filter (fun l => (l.startsWith (pfx ++ " ")))
+  let filt := filtFn f
+  let C := Reach.ball g filt srcs n
+  if !Reach.closedB g filt C then
+    return (some s!"run {j}: judge: ball n is not closed (spec checker out of fuel)", stt)
+  let reach := Reach.anyTargetIn C tgts
+  let expected := tgts.isEmpty || reach
+  let dls := linesOf s!"D {j}"
+  let fls := linesOf s!"F {j}"
+  let dMain := dls.filter (fun l => !(l.startsWith s!"D {j} fresh"))
+  let fMain := fls.filter (fun l => !(l.startsWith s!"F {j} fresh"))
+  let dFresh := dls.filter (fun l => (l.startsWith s!"D {j} fresh"))
+  let fFresh := fls.filter (fun l => (l.startsWith s!"F {j} fresh"))
+  match dMain with
+  | [dl] =>
+    let found := field dl "found" == some "1"
+    if field dl "found" != some "1" && field dl "found" != some "0" then
+      return (some s!"run {j}: unparsable found flag [{dl}]", stt)
+    if found != expected then
+      return (some (s!"run {j}: {alg} returned {found} but " ++
+        (if tgts.isEmpty then "the target set is empty"
+         else if reach then "a target is reachable through unfiltered edges"
+         else "no target is reachable through unfiltered edges") ++
+        s!" (sources {showList srcs} targets {showList tgts} filter {showList (f.getD [])})"), stt)
+    stt := { stt with runs := stt.runs + 1, found := stt.found + (if found then 1 else 0),
+                      notfound := stt.notfound + (if found then 0 else 1),
+                      emptyT := stt.emptyT + (if tgts.isEmpty then 1 else 0),
+                      reuse := stt.reuse + (if reused then 1 else 0),
+                      filtered := stt.filtered + (if (f.getD []).isEmpty then 0 else 1),
+                      explored := stt.explored + (C.filter (fun x => !srcs.contains x)).length }
+    if found && !tgts.isEmpty then
+      match fMain with
+      | [fl] =>
+        match (field fl "np").bind parseList, (field fl "ep").bind parseList, (field fl "it").bind parseList with
+        | some np, some ep, some it =>
+          if !Reach.validPathB g filt srcs tgts np then
+            bad := some s!"run {j}: node path {showList np} is not a simple path from a source to a target along existing unfiltered edges (sources {showList srcs} targets {showList tgts} filter {showList (f.getD [])})"
+          else if it != np.reverse then
+            bad := some s!"run {j}: iterator output {showList it} is not the reverse of the node path {showList np}"
+          else if !Reach.edgesJoinB g np ep then
+            bad := some s!"run {j}: edge path {showList ep} does not have one edge per hop joining the nodes of {showList np}"
+          else if isBfs && !Reach.noShorterB g filt srcs tgts (np.length - 1) then
+            bad := some s!"run {j}: bfs path {showList np} has {np.length - 1} edges but a target is reachable with fewer"
+          else
+            let h := np.length - 1
+            let nt := Reach.noShorterB g filt srcs tgts 2
+            stt := { stt with maxhops := Nat.max stt.maxhops h, hops := stt.hops + h,
+                              nontriv := stt.nontriv + (if nt then 1 else 0),
+                              epfilt := stt.epfilt + (if ep.any filt then 1 else 0) }
+        | _, _, _ => bad := some s!"run {j}: unparsable path line [{fl}]"
+      | _ => bad := some s!"run {j}: expected exactly one path observation, got {fMain.length} ({" | ".intercalate (impl.take 6)})"
+    else
+      if !fMain.isEmpty then bad := some s!"run {j}: path observation without a found target"
+      if !found && (C.any (fun x => !srcs.contains x)) then stt := { stt with nontriv := stt.nontriv + 1 }
+    if bad.isSome then return (bad, stt)
+    -- independence of earlier runs
+    if reused then
+      let strip (l : String) : String := l.replace " fresh" ""
+      if dFresh.map strip != dMain || fFresh.map strip != fMain then
+        bad := some s!"run {j}: result on the reused object differs from a fresh object: reused [{" | ".intercalate (dMain ++ fMain)}] fresh [{" | ".intercalate (dFresh ++ fFresh)}]"
+    else if !dFresh.isEmpty || !fFresh.isEmpty then
+      bad := some s!"run {j}: unexpected fresh-object observation"
+  | _ =>
+    bad := some s!"run {j}: expected exactly one found observation, got {dMain.length} ({" | ".intercalate (impl.take 6)})"
+  return (bad, stt)
 
 def handle (c : Case) : CaseOut := Id.run do
   -- parse
@@ -179,20 +264,50 @@ def handle (c : Case) : CaseOut := Id.run do
       | .fuel => modelBad := some "model-out-of-fuel"
       | .panic => modelBad := some "model panic in q"
       k := k + 1
+    | .rep id cnt f =>
+      -- The model executes the run ONCE and replicates its answer for all `cnt` calls: by
+      -- `Tbx.Props.C15.runs_independent_history` the flag, the parents, the worklist and the path views of a
+      -- run do not depend on the history of earlier runs on the object, and a run that repeats the previous
+      -- run's arguments leaves the object exactly as it was (`target` is rewritten with the same node or kept).
+      -- The JUDGE does not use this: it decides every observed run and the count from the Spec alone.
+      match objs.find? (·.id == id) with
+      | none => modelBad := some s!"rep on unknown object {id}"
+      | some ob =>
+        if cnt == 0 then modelBad := some "rep 0"
+        else
+        match Search.runWith pop g (filtFn f) ob.sr with
+        | .ok (b, sr') =>
+          let obsN := repObserved cnt
+          let freshLines : Option (Bool × Search.Searcher) :=
+            match Search.new ob.srcs ob.tgts n with
+            | some fr => match Search.runWith pop g (filtFn f) fr with
+              | .ok r => some r
+              | _ => none
+            | none => none
+          for i in [0:obsN] do
+            out := out ++ modelLines g (toString (k + i)) b sr'
+            if ob.runs + (cnt - obsN) + i > 0 then
+              match freshLines with
+              | some (b2, fr') => out := out ++ modelLines g s!"{k + i} fresh" b2 fr'
+              | none => modelBad := some "model panic in fresh run"
+          out := out.push s!"D r{k} n={cnt} true={if b then cnt else 0}"
+          objs := objs.map fun x => if x.id == id then { x with sr := sr', runs := x.runs + cnt } else x
+          k := k + obsN
+        | .fuel => modelBad := some "model-out-of-fuel"
+        | .panic => modelBad := some "model panic in run"
   -- ---------------- judge (Spec checkers on the implementation's lines)
   let mut verdict : Verdict := .ok
   let mut stt : Stats := {}
   let mut jobs : List (String × List Nat × List Nat × Nat) := []   -- id, srcs, tgts, runs so far
-  let linesOf (pfx : String) : List String := c.impl.toList.filter (fun l => (l.startsWith (pfx ++ " ")))
+  let impl := c.impl.toList
   let mut j := 0
   gs := {}
   for o in ops do
     if !(verdict matches .ok) then break
-    let mut cur : Option (List Nat × List Nat × Option (List Nat) × Bool) := none
-    let g := gs.g
+    -- runs to judge individually: (srcs, tgts, filter, object was run before)
+    let mut cur : List (List Nat × List Nat × Option (List Nat) × Bool) := []
+    let mut repCheck : Option (Nat × List Nat × List Nat × Option (List Nat)) := none   -- N, srcs, tgts, filter
     let n := gs.n
-    let isBfs := gs.isBfs
-    let alg := gs.alg
     match o with
     | .graph a n' es =>
       gs := { isBfs := a == "bfs", alg := a, n := n', m := es.length, adj := mkAdj n' es }
@@ -205,81 +320,49 @@ def handle (c : Case) : CaseOut := Id.run do
       match jobs.find? (·.1 == id) with
       | none => verdict := .skip s!"run on unknown object {id}"
       | some (_, srcs, tgts, r) =>
-        cur := some (srcs, tgts, f, r > 0)
+        cur := [(srcs, tgts, f, r > 0)]
+        stt := { stt with maxhist := Nat.max stt.maxhist (r + 1) }
         jobs := jobs.map fun x => if x.1 == id then (x.1, x.2.1, x.2.2.1, x.2.2.2 + 1) else x
     | .q srcs tgts f =>
       if srcs.any (· ≥ n) || tgts.any (· ≥ n) then verdict := .skip "source or target out of range"
       else if srcs.any (tgts.contains ·) then verdict := .skip "sources and targets not disjoint"
-      else cur := some (srcs, tgts, f, false)
-    if !(verdict matches .ok) then break
-    match cur with
-    | none => pure ()
-    | some (srcs, tgts, f, reused) =>
-      let filt := filtFn f
-      let C := Reach.ball g filt srcs n
-      if !Reach.closedB g filt C then
-        verdict := .fail s!"run {j}: judge: ball n is not closed (spec checker out of fuel)"; break
-      let reach := Reach.anyTargetIn C tgts
-      let expected := tgts.isEmpty || reach
-      let dls := linesOf s!"D {j}"
-      let fls := linesOf s!"F {j}"
-      let dMain := dls.filter (fun l => !(l.startsWith s!"D {j} fresh"))
-      let fMain := fls.filter (fun l => !(l.startsWith s!"F {j} fresh"))
-      let dFresh := dls.filter (fun l => (l.startsWith s!"D {j} fresh"))
-      let fFresh := fls.filter (fun l => (l.startsWith s!"F {j} fresh"))
-      match dMain with
-      | [dl] =>
-        let found := field dl "found" == some "1"
-        if field dl "found" != some "1" && field dl "found" != some "0" then
-          verdict := .fail s!"run {j}: unparsable found flag [{dl}]"; break
-        if found != expected then
-          verdict := .fail (s!"run {j}: {alg} returned {found} but " ++
-            (if tgts.isEmpty then "the target set is empty"
-             else if reach then "a target is reachable through unfiltered edges"
-             else "no target is reachable through unfiltered edges") ++
-            s!" (sources {showList srcs} targets {showList tgts} filter {showList (f.getD [])})")
-          break
-        stt := { stt with runs := stt.runs + 1, found := stt.found + (if found then 1 else 0),
-                          notfound := stt.notfound + (if found then 0 else 1),
-                          emptyT := stt.emptyT + (if tgts.isEmpty then 1 else 0),
-                          reuse := stt.reuse + (if reused then 1 else 0),
-                          filtered := stt.filtered + (if (f.getD []).isEmpty then 0 else 1),
-                          explored := stt.explored + (C.filter (fun x => !srcs.contains x)).length }
-        if found && !tgts.isEmpty then
-          match fMain with
-          | [fl] =>
-            match (field fl "np").bind parseList, (field fl "ep").bind parseList, (field fl "it").bind parseList with
-            | some np, some ep, some it =>
-              if !Reach.validPathB g filt srcs tgts np then
-                verdict := .fail s!"run {j}: node path {showList np} is not a simple path from a source to a target along existing unfiltered edges (sources {showList srcs} targets {showList tgts} filter {showList (f.getD [])})"
-              else if it != np.reverse then
-                verdict := .fail s!"run {j}: iterator output {showList it} is not the reverse of the node path {showList np}"
-              else if !Reach.edgesJoinB g np ep then
-                verdict := .fail s!"run {j}: edge path {showList ep} does not have one edge per hop joining the nodes of {showList np}"
-              else if isBfs && !Reach.noShorterB g filt srcs tgts (np.length - 1) then
-                verdict := .fail s!"run {j}: bfs path {showList np} has {np.length - 1} edges but a target is reachable with fewer"
-              else
-                let h := np.length - 1
-                let nt := Reach.noShorterB g filt srcs tgts 2
-                stt := { stt with maxhops := Nat.max stt.maxhops h, hops := stt.hops + h,
-                                  nontriv := stt.nontriv + (if nt then 1 else 0),
-                                  epfilt := stt.epfilt + (if ep.any filt then 1 else 0) }
-            | _, _, _ => verdict := .fail s!"run {j}: unparsable path line [{fl}]"
-          | _ => verdict := .fail s!"run {j}: expected exactly one path observation, got {fMain.length} ({" | ".intercalate (c.impl.toList.take 6)})"
+      else cur := [(srcs, tgts, f, false)]
+    | .rep id cnt f =>
+      match jobs.find? (·.1 == id) with
+      | none => verdict := .skip s!"rep on unknown object {id}"
+      | some (_, srcs, tgts, r) =>
+        if cnt == 0 then verdict := .skip "rep 0"
         else
-          if !fMain.isEmpty then verdict := .fail s!"run {j}: path observation without a found target"
-          if !found && (C.any (fun x => !srcs.contains x)) then stt := { stt with nontriv := stt.nontriv + 1 }
-        if !(verdict matches .ok) then break
-        -- independence of earlier runs
-        if reused then
-          let strip (l : String) : String := l.replace " fresh" ""
-          if dFresh.map strip != dMain || fFresh.map strip != fMain then
-            verdict := .fail s!"run {j}: result on the reused object differs from a fresh object: reused [{" | ".intercalate (dMain ++ fMain)}] fresh [{" | ".intercalate (dFresh ++ fFresh)}]"
-        else if !dFresh.isEmpty || !fFresh.isEmpty then
-          verdict := .fail s!"run {j}: unexpected fresh-object observation"
-      | _ =>
-        verdict := .fail s!"run {j}: expected exactly one found observation, got {dMain.length} ({" | ".intercalate (c.impl.toList.take 6)})"
+          let obsN := repObserved cnt
+          cur := (List.range obsN).map fun i => (srcs, tgts, f, r + (cnt - obsN) + i > 0)
+          repCheck := some (cnt, srcs, tgts, f)
+          stt := { stt with silent := stt.silent + (cnt - obsN), maxhist := Nat.max stt.maxhist (r + cnt) }
+          jobs := jobs.map fun x => if x.1 == id then (x.1, x.2.1, x.2.2.1, x.2.2.2 + cnt) else x
+    if !(verdict matches .ok) then break
+    let j0 := j
+    for (srcs, tgts, f, reused) in cur do
+      if !(verdict matches .ok) then break
+      let (bad, stt') := judgeRun impl gs j srcs tgts f reused stt
+      stt := stt'
+      match bad with
+      | some w => verdict := .fail w
+      | none => pure ()
       j := j + 1
+    if !(verdict matches .ok) then break
+    match repCheck with
+    | none => pure ()
+    | some (cnt, srcs, tgts, f) =>
+      -- every one of the `cnt` calls must have returned what the Spec says for this (graph, filter, S, T)
+      let filt := filtFn f
+      let C := Reach.ball gs.g filt srcs gs.n
+      let expected := tgts.isEmpty || Reach.anyTargetIn C tgts
+      match impl.filter (fun l => l.startsWith s!"D r{j0} ") with
+      | [l] =>
+        let want := if expected then cnt else 0
+        if field l "n" != some (toString cnt) || field l "true" != some (toString want) then
+          verdict := .fail (s!"rep at run {j0}: {cnt} identical {gs.alg} runs on one object, each must return {expected} " ++
+            s!"(sources {showList srcs} targets {showList tgts} filter {showList (f.getD [])}), but the implementation reports [{l}]")
+      | ls => verdict := .fail s!"rep at run {j0}: expected exactly one count observation, got {ls.length} ({" | ".intercalate (impl.take 8)})"
   if (verdict matches .ok) then
     match modelBad with
     | some w => verdict := .fail s!"{w} on an in-domain case"
@@ -290,6 +373,7 @@ def handle (c : Case) : CaseOut := Id.run do
                      ("reuse", toString stt.reuse), ("filtered", toString stt.filtered),
                      ("nontrivruns", toString stt.nontriv), ("hops", toString stt.hops),
                      ("maxhops", toString stt.maxhops), ("explored", toString stt.explored),
-                     ("epfiltered", toString stt.epfilt), ("nodes", toString nodes), ("edges", toString edgesTotal)] }
+                     ("epfiltered", toString stt.epfilt), ("silentruns", toString stt.silent),
+                     ("maxhistory", toString stt.maxhist), ("nodes", toString nodes), ("edges", toString edgesTotal)] }
 
 end Tbx.Drv.C15
